@@ -48,9 +48,9 @@ def obligations(tier):
         for sev in sevs:
             what = "without severed member / payload" if sev == 0 else f"with {SEVERABLE[sev - 1]} severed + integrated payload"
             obs.append(Ob(f"one_envelope_{soc}_severed{sev}", "E1", "h_boot", {"soc": soc, "n": 1, "severed": sev}, 1200, f"one envelope ({what}): base < 2^32, 9 classes, component-id position, seq uint32", weight=150))
-        for part in range(3):
+        for part in range(3) if (soc == "nrf54h20" or tier == "thorough") else ():
             obs.append(Ob(f"two_envelopes_{soc}_part{part}", "E1", "h_boot", {"soc": soc, "n": 2, "part": part}, 1800, f"two envelopes, roles solver-chosen incl. duplicates and unknown class (first class in third #{part} of the table)", weight=200))
-        for cfg in range(len(CFG_CASES)):
+        for cfg in range(len(CFG_CASES)) if (soc == "nrf54h20" or tier == "thorough") else (0,):
             obs.append(Ob(f"kconfig_roles_{soc}_cfg{cfg}", "E1", "h_boot", {"soc": soc, "n": 1, "severed": 0, "cfg": cfg}, 1200, f"role assignments from a build configuration file ({CFG_CASES[cfg][0]}): the envelope of each configured or default class (solver-chosen) lands in the slot of the role that the configuration, then the defaults, give it", weight=120))
     obs.append(Ob("rejections", "E1", "h_reject", {}, 900, "next to a valid envelope of an earlier-written domain: missing component id / record one byte larger than the slot / absent input file; unknown SoC: error and nothing written; record exactly as large as the slot accepted", weight=100))
     return obs
